@@ -475,4 +475,4 @@ def rdm(psi, *sites):
         rho = rho.swap_gate(axes=axes_sw)
         rho = rho.moveaxis(source=(2 * (ii + nd), 2 * (ii + nd) + 1), destination=(2 * ii, 2 * ii + 1))
 
-    return rho
+    return abs(psi.factor) ** 2 * rho
